@@ -4,6 +4,7 @@ import (
 	"encoding/hex"
 	"fmt"
 	"strings"
+	"sync/atomic"
 )
 
 // Value is one bound value of a QUERY / EXECUTE / BATCH request.
@@ -121,7 +122,13 @@ type Request struct {
 	// Trailing is the number of body bytes left over after decoding.
 	ParseErr error
 	Trailing int
+
+	handled int32
 }
+
+// Handled reports whether the handler (rule, custom handler or default) has returned for this
+// request. Requests appear in Node.Requests as soon as they are received, i.e. possibly before.
+func (r *Request) Handled() bool { return atomic.LoadInt32(&r.handled) == 1 }
 
 // Proto is the request's protocol version.
 func (r *Request) Proto() int { return r.Header.Proto() }
